@@ -25,6 +25,10 @@ pub extern "C" fn avra_rs_verif_yield(site: u32) {
 
 pub const SITE_OP_BOUNDARY: u32 = 0;
 
+/// wall time without any scheduling progress after which the token holder is taken to be
+/// blocked on a lock held by a parked thread
+pub const FOREIGN_BLOCK_SECS: f64 = 4.0;
+
 #[derive(Clone, Debug)]
 pub enum Strategy {
     /// whole operations, never a switch inside one
@@ -239,6 +243,10 @@ impl Sched {
             g.foreign_events += 1;
             g.foreign_blocked[tid] = false;
             g.parked[tid] = true;
+            // if meanwhile everybody else has finished, nobody is left to hand the token over
+            if g.current == usize::MAX || (g.current < self.n && g.finished[g.current]) {
+                g.current = tid;
+            }
             self.cv.notify_all();
             while g.current != tid {
                 g = self.cv.wait(g).unwrap_or_else(|e| e.into_inner());
@@ -282,10 +290,19 @@ impl Sched {
             if g.finished.iter().all(|f| *f) {
                 return Ok(());
             }
+            if g.current == usize::MAX || (g.current < self.n && g.finished[g.current]) {
+                // the token is with nobody (the last holder finished while the others were
+                // blocked on a foreign lock): whoever is parked continues
+                if let Some(next) = (0..self.n).find(|t| g.parked[*t] && !g.finished[*t]) {
+                    g.foreign_blocked[next] = false;
+                    g.current = next;
+                    self.cv.notify_all();
+                }
+            }
             if g.progress != last_progress {
                 last_progress = g.progress;
                 last_change = std::time::Instant::now();
-            } else if last_change.elapsed().as_secs_f64() > 2.0 {
+            } else if last_change.elapsed().as_secs_f64() > (if g.foreign_events > 0 { 0.3 } else { FOREIGN_BLOCK_SECS }) {
                 let holder = g.current;
                 if holder < self.n && !g.finished[holder] {
                     // the holder neither yields nor finishes: assume it blocks on a lock that a
@@ -300,7 +317,10 @@ impl Sched {
                     }
                 }
             }
-            if start.elapsed().as_secs_f64() > overall_timeout_secs {
+            // "no completion" means no scheduling progress for a long time, not a slow episode:
+            // code that serialises builds behind a lock is slow here (every conflict costs a
+            // detection interval) but legal
+            if last_change.elapsed().as_secs_f64() > overall_timeout_secs || start.elapsed().as_secs_f64() > 40.0 * overall_timeout_secs {
                 return Err(format!("no completion within {} s (holder {}, progress {})", overall_timeout_secs, g.current, g.progress));
             }
             let (g2, _) = self.cv.wait_timeout(g, std::time::Duration::from_millis(50)).unwrap_or_else(|e| e.into_inner());
